@@ -411,7 +411,7 @@ func init() {
 			func(r *Rng, i int) interface{} { return genAppCase(r, i) },
 			func(f string) (interface{}, error) {
 				var c appCase
-				if err := readJSON(f, &c); err != nil {
+				if err := readCase(f, &c); err != nil {
 					return nil, err
 				}
 				return &c, nil
